@@ -349,7 +349,16 @@ def c13(run, args):
     ib = behaviours_from(run, idle, rot, "idle")
     for b in ib:
         b["srv_timeout_ms"] = 300
-    beh = ib + behaviours_from(run, tour, stores_for(tour, both), "tour")
+    # (5) RETR / TOP of a message that another interface has removed since login, on the file store (its content is gone): the
+    #     reply itself is left open by the contract, but the session and the server must survive it; short reply deadline
+    van = run.generate("GenPop3", gen_cfg(["remove", "purge", "retr", "top", "stat", "list"], 3 if quick else 4, "bfs", argkinds=("valid",), toplines=("ok",),
+                                          maxid=2, initcounts=(2,), loggedin=True), workers=4)
+    van = [x for x in van if free_fetch_risk(x)]
+    random.Random(run.seed).shuffle(van)
+    vb = behaviours_from(run, van[:60 if quick else 400], lambda i: ["file"], "vanished")
+    for b in vb:
+        b["timeout_ms"] = 700
+    beh = ib + vb + behaviours_from(run, tour, stores_for(tour, both), "tour")
     beh += behaviours_from(run, bfs, stores_for(bfs, rot), "bfs")
     beh += behaviours_from(run, sim, stores_for(sim, rot if quick else both), "sim")
     run.cov["samples"] = [tour[len(tour) // 2], bfs[len(bfs) // 2], sim[0][:16]] if tour and bfs and sim else []
